@@ -57,12 +57,23 @@ def gen_tree(rng, depth, base=None):
         # a tests package: names matching the tests pattern, the test-file pattern, both or neither, chosen so
         # that the two passes over the directory listing disagree with the sorted order
         files = ["__init__.py"] + rng.sample(TESTS_PKG_FILES, rng.randint(2, 6))
+        if rng.random() < 0.5:
+            # (both kinds of test module side by side, named so that the two passes over the listing and the sorted
+            # order disagree)
+            files = list(dict.fromkeys(files + ["ftests.py", "test_a.py", "tests.py"]))
     else:
         files = rng.sample(FILES, rng.randint(0, 6))
     subs = []
     if depth > 0:
         stems = {f.split(".")[0] for f in files}
-        for n in rng.sample(DIRS, rng.randint(0, 3)):
+        # (the names the statement speaks about - tests packages, ignored and non-identifier directories - twice as likely
+        # as the others; up to four sub-directories, so that two of the pruned kind can be neighbours in the listing)
+        pool = DIRS + ["tests", "ftests", "CVS", "_darcs", ".git", "1bad", "not-ident", "node_modules", "__pycache__"]
+        picked = []
+        for n in rng.sample(pool, rng.randint(0, 4)):
+            if n not in picked:
+                picked.append(n)
+        for n in picked:
             if n in stems:
                 continue        # a module and a package of the same name: Python's import picks one of them
             subs.append([n, gen_tree(rng, depth - 1, n)])
@@ -157,7 +168,7 @@ def run(ctx, n=None, module_gate_only=False):
     from zope.testrunner.options import get_options
     rng = ctx.rng
     if n is None:
-        n = 100 if ctx.quick() else 3000
+        n = 150 if ctx.quick() else 3000
     queries = []
     infos = []
     for idx in range(n):
@@ -231,6 +242,8 @@ def run(ctx, n=None, module_gate_only=False):
             roots.append(pr_)
             roots_pkgs.append(pkg.split("."))
         tpat = rng.choice([None, None, "^f?tests$", "tests", "^test", "^[fz]?tests$"])
+        if any(n_ in ("tests", "ftests", "Tests") for n_ in all_names(tree)) and rng.random() < 0.5:
+            tpat = rng.choice(["^f?tests$", "tests", "^[fz]?tests$"])
         tfpat = rng.choice([None, None, "^test_", "a$"])
         usec = rng.random() < 0.2
         mfilter = rng.choice([None, None, "tests", "!pkg", "test_a", "^c14ns", "!c14ns", "^tests$", r"^c14ns\.sub\.", "^pkg"])
